@@ -170,6 +170,36 @@ def run(ctx):
                  ctx.construct(v, extra='membership => raise'),
                  'membership of an address in a denied network does not '
                  'raise', ctx.loc(v))
+    # every address is compared with the WHOLE deny-list: the inner loop
+    # runs over the value of _denied_networks() itself, not over a subset
+    # chosen by something else (address family as reported by the resolver,
+    # ...): the canonical address may belong to another family than the
+    # socket address it was unwrapped from
+    if inner:
+        it = U.canon_expr(v.node, inner[0].iter)
+        r2.check(isinstance(it, ast.Call) and
+                 U.call_name(it) == '_denied_networks' and not it.args,
+                 ctx.construct(v, extra='whole deny-list per address'),
+                 'an address is compared with %s, not with every denied '
+                 'network: a pre-selection made before the address is '
+                 'brought to its canonical form lets e.g. '
+                 '::ffff:169.254.169.254 through' % norm(inner[0].iter),
+                 ctx.loc(v, inner[0]))
+    # every configured entry becomes a network: host bits are tolerated
+    # (strict=False), otherwise "10.0.0.1/8" is silently dropped
+    dnf = prog.func(EG + '._denied_networks')
+    nets = [x for x in own_nodes(dnf.node) if isinstance(x, ast.Call) and
+            U.call_name(x) == 'ip_network']
+    r2.check(len(nets) == 1 and any(
+        k.arg == 'strict' and isinstance(k.value, ast.Constant) and
+        k.value.value is False for k in nets[0].keywords) or (
+        len(nets) == 1 and len(nets[0].args) > 1 and
+        isinstance(nets[0].args[1], ast.Constant) and
+        nets[0].args[1].value is False),
+        ctx.construct(dnf, extra='entries with host bits are kept'),
+        'denied_cidrs entries are parsed strictly: an operator entry such '
+        'as 10.0.0.1/8 or 169.254.169.254/16 raises ValueError, is logged '
+        'and dropped, and that network is no longer denied', ctx.loc(dnf))
     # addr_infos comes from getaddrinfo(host, ...) of the parsed URL
     ai = [x for x in own_nodes(v.node) if isinstance(x, ast.Assign) and
           dotted(x.targets[0]) == 'addr_infos']
